@@ -12,7 +12,7 @@ static std::string root_dir() { char buf[4096]; ssize_t n = readlink("/proc/self
 vmpi::ExploreResult vx_explore(const Args& a, Recorder& rec, const VxConfig& cfg, int bound, double deadline_s, long max_exec, const std::string& property) {
     VxFactory f = vx_factories().at(cfg.harness); VxHarness h = f(cfg);
     vmpi::ExploreCfg ec; ec.mpi = h.mpi; ec.workers = a.nshards > 1 ? std::max(1, 16 / a.nshards) : 16; { const char* w = getenv("VX_WORKERS"); if (w) ec.workers = atoi(w); }
-    ec.bound = bound; ec.deadline_s = deadline_s; ec.max_exec = max_exec; ec.tmpdir = root_dir() + "/build/out/vx_tmp"; ec.label = property;
+    ec.bound = bound; ec.deadline_s = deadline_s; ec.max_exec = max_exec; ec.tmpdir = root_dir() + "/build/out/vx_tmp"; ec.label = property; ec.child_timeout_s = (property == "C16") ? 2 : 20;
     marker(property + " " + cfg.str());
     vmpi::ExploreResult R = vmpi::explore(ec, h.body, h.oracle, h.reset);
     rec.states += R.states; rec.transitions += R.transitions; rec.evaluations += R.executions; rec.traces += R.executions;
